@@ -16,6 +16,7 @@ COMPONENTS = {
     "capi": dict(driver_mode="capi", targets=[("capi", "capi.cpp", R.REPO + "/c-interface/cpgm.cpp")]),
 }
 COMPONENTS["thr"] = dict(driver_mode="thr", targets=[("threads", "threads.cpp", "-lpthread")])
+COMPONENTS["own"] = dict(driver_mode="own", targets=[("own", "own.cpp", "")])
 # composite component: every harness reads the same case file and answers only the kinds it knows
 COMPONENTS["all"] = dict(driver_mode="all", targets=[t for k in ("idx", "dyn", "var", "map", "mul", "capi") for t in COMPONENTS[k]["targets"]])
 
@@ -67,6 +68,7 @@ PROPS = {
              nontrivial=lambda line: True),
     "C17": P(comp="all", gen=lambda t, s: gens.gen_all(t, s, 0.25 if t == "quick" else 1.0), judges=["C17"], san=True,
              kinds=("IDX", "SEG", "BKT", "EFI", "MAP", "CIX", "CDY", "MUL", "DYN", "PLA"), nontrivial=lambda line: True),
+    "C19": P(comp="own", gen=lambda t, s: gens.gen_own(t, s), judges=["C19"], kinds=("OWN",), san=True, nontrivial=lambda line: True),
     "C16": P(comp="thr", gen=lambda t, s: gens.gen_thr(t, s), judges=["C16"], kinds=("THR",), san=True, cxx="clang++",
              flags="-std=c++17 -O1 -g -DNDEBUG -march=native -w -fsanitize=thread", nontrivial=lambda line: True),
     "C03": P(comp="idx", gen=lambda t, s: gens.gen_seg(t, s), judges=["C03"], kinds=("SEG",),
@@ -171,7 +173,7 @@ def check(pid, tier, seed, args, t0):
         write_evidence(pid, tier, seed, pr, 0, 0, {}, [], ["harness build failed"], 1, t0, spec, broken)
         return 1
     exelist = [exes[t[0]] for t in comp["targets"]]
-    env = probe_env(exelist[0]) if spec.get("comp") != "thr" else dict(conv="avx512")
+    env = probe_env(exelist[0]) if spec.get("comp") not in ("thr", "own") else dict(conv="avx512")
     if spec.get("san"):
         e2 = dict(os.environ); e2["ASAN_OPTIONS"] = "detect_leaks=0:abort_on_error=0"; e2["UBSAN_OPTIONS"] = "print_stacktrace=1"
         e2["TSAN_OPTIONS"] = "halt_on_error=1"; env["env"] = e2
